@@ -1,6 +1,6 @@
 ---------------------------- MODULE ConfigSources ----------------------------
 (* E09 -- ConfigSources: how the collector assembles its effective raw configuration from its command line
-   (--config, --set) and the configuration providers (file, env, yaml).  STATEMENT-LEVEL SPECIFICATION, written from the
+   (--config, --set) and the configuration providers (file, env, yaml, http).  STATEMENT-LEVEL SPECIFICATION, written from the
    flag help texts (otelcol/flags.go), service/README.md ("How to provide configuration?", "How to override config
    properties?"), confmap/README.md ("Configuration Resolving"), the doc comments of confmap.ResolverSettings /
    confmap.NewResolver / confmap.Provider / otelcol.NewCommand and of the providers' NewFactory + READMEs.
@@ -27,7 +27,8 @@
                 (C4) file:<path> (relative or absolute) = the file's content as YAML, unreadable file = error;
                      env:<NAME> = the variable's value as YAML, a NAME not matching ^[a-zA-Z_][a-zA-Z0-9_]*$ = error,
                      env:<NAME>:-<default> = the default when the variable is not set; yaml:<bytes> = the bytes as
-                     YAML, where "::" in a key separates nested keys (yaml:processors::batch::timeout: 2s).
+                     YAML, where "::" in a key separates nested keys (yaml:processors::batch::timeout: 2s);
+                     http://<host>/<path> = the body of the server's answer as YAML.
                 (C5) a source whose content is not a YAML mapping (not valid YAML, a scalar, a list) is an error; an
                      error of any source makes the whole resolution fail (no partial configuration).
                 (C6) ${NAME} / ${env:NAME} in a document are expanded with the env provider AFTER all sources are
@@ -50,6 +51,7 @@
      (S5) which failing source an error names, and every error text: not compared (only error vs. configuration).
      (S7) an EMPTY document (empty file, unset / empty variable, "yaml:") as a top-level source: contributes nothing,
           or is an error; both admitted (AsConf's handling of a nil value is not documented).
+     (S9) an http location answered with a status other than 200: error, or the body is used all the same.
      (S8) documents in which a "::" key overlaps a sibling key of the same map, empty key segments ("a..b", "=v"),
           white space around the key / "=", values that are not one YAML scalar / flow list / flow map: not generated.
 
@@ -126,8 +128,9 @@ IsDocText(x)   == x = <<>> \/ (Len(x) = 1 /\ x[1] \in DOMAIN DocTable)
 SchemeChar == Letter \cup Digit \cup {"+", ".", "-"}
 IsSchemeSyntax(p) == Len(p) >= 2 /\ p[1] \in Letter /\ \A i \in 2..Len(p) : p[i] \in SchemeChar
 IsDriveLetter(p)  == Len(p) = 1 /\ p[1] \in Letter
-Providers == [file |-> <<"f", "i", "l", "e">>, env |-> <<"e", "n", "v">>, yaml |-> <<"y", "a", "m", "l">>]
-\* [k |-> "file" | "env" | "yaml" | "unsupported" | "open", x |-> path / opaque text]
+Providers == [file |-> <<"f", "i", "l", "e">>, env |-> <<"e", "n", "v">>, yaml |-> <<"y", "a", "m", "l">>,
+              http |-> <<"h", "t", "t", "p">>]
+\* [k |-> "file" | "env" | "yaml" | "http" | "unsupported" | "open", x |-> path / opaque text]
 Classify(u) ==
   LET i == IndexOf(u, ":") IN
   IF i = 0 THEN [k |-> "file", x |-> u]                                   \* no scheme: a file path
@@ -159,12 +162,21 @@ EnvSource(x) ==
 
 YamlSource(x) == ConfOf(TextContent(x))
 
+\* http:<//host/path>: the body of the answer as YAML.  Http (plan) maps the opaque text to [status, body]; a path the
+\* server does not know is answered 404 with a text body.  (S9) a status other than 200: an error, or the body is read
+\* all the same (the README only says "reads its contents as YAML").
+HttpSource(x) == IF x \in DOMAIN Http
+                 THEN IF Http[x].status = 200 THEN ConfOf(DocTable[Http[x].body])
+                      ELSE {Err} \cup ConfOf(DocTable[Http[x].body])
+                 ELSE {Err}
+
 \* the admissible outcomes of one location
 UriSource(u) ==
   LET cl == Classify(u) IN
   CASE cl.k = "file"        -> FileSource(cl.x)
     [] cl.k = "env"         -> EnvSource(cl.x)
     [] cl.k = "yaml"        -> YamlSource(cl.x)
+    [] cl.k = "http"        -> HttpSource(cl.x)
     [] cl.k = "unsupported" -> {Err}
     [] cl.k = "open"        -> {Err} \cup FileSource(cl.x)
 
@@ -178,7 +190,8 @@ SetValue(a) == IF SetVal(a) = <<>> THEN [t |-> "leaf", n |-> "nil", e |-> <<>>] 
 \* key path: "." separates; (S4) "::" in the key
 SetPath(a)  == LET parts == Split(SetKey(a), {".", "::"}) IN [i \in 1..Len(parts) |-> parts[i][1]]
 SetTree(a)  == PathTree(SetPath(a), NormV(SetValue(a)))
-SetSource(a) == IF \E i \in 1..Len(SetKey(a)) : SetKey(a)[i] = "::" THEN {Ok(SetTree(a)), Err} ELSE {Ok(SetTree(a))}
+SetSource(a) == IF ~SetHasEq(a) THEN {Err}
+                ELSE IF \E i \in 1..Len(SetKey(a)) : SetKey(a)[i] = "::" THEN {Ok(SetTree(a)), Err} ELSE {Ok(SetTree(a))}
 
 -----------------------------------------------------------------------------
 (* (C6) references to environment variables in the merged tree (whole-value references to variables that are set to a
